@@ -187,6 +187,9 @@ func runC07(t *testing.T, c C07Case, pos int) *c07Run {
 				return
 			}
 			kit.RunClientOps(pre, cs, cancel, r.clog)
+			if r.clog.Snapshot().RecvEnd != nil {
+				_ = cs.Trailer() // permitted as soon as a receive has returned an error (here: the cancellation)
+			}
 			<-cancelled
 			// receives after the cancellation: unread+2 of them
 			for i := 0; i < (c.NH-c.Read)+2; i++ {
